@@ -235,10 +235,11 @@ def checkAcc (d : DS) (s : St) (o : Obs) (t : Toks) (mi : Option (Bytes × Bool)
       -- the model accessor *is* the statement "reports a value exactly when the raw RLP is the
       -- canonical encoding of such a value": a disagreement is a failure of that property
       let owner := if k == "text" || k == "disp" then "C12" else if k == "encs" then "C04"
-        else if k == "pk" || k == "pkkey" || k == "nidpk" then "C10"
+        else if k == "pk" || k == "pkkey" || k == "nidpk" || k == "nidconv" then "C10"
         else if k == "conv" || k == "dbg" then "C03" else "C14"
       let pred := if k == "encs" then "encoding_is_the_same_into_every_kind_of_sink"
         else if k == "disp" then "display_is_the_text_form_whatever_the_sink_did_before"
+        else if k == "nidconv" then "every_conversion_to_a_node_id_gives_the_node_id"
         else s!"accessor_{k}_agrees_with_raw_content"
       (s.diff s!"acc.{k}" model impl).prop owner pred s!"want={model} got={impl} pairs={showPairs r.content}"
   let s := c s "id" (optHex r.idString)
@@ -306,6 +307,7 @@ def checkAcc (d : DS) (s : St) (o : Obs) (t : Toks) (mi : Option (Bytes × Bool)
   let s := c s "text" (String.ofList ((r.toText).map fun b => Char.ofNat b.toNat))
   let s := c s "disp" "1"
   let s := if thas t "encs" then c s "encs" "1" else s
+  let s := if thas t "nidconv" then c s "nidconv" "1" else s
   let s := c s "dbg" "ok"
   let s := match tget t "json" with
     | "1" => s.chk
@@ -479,6 +481,11 @@ def handleDec (d : DS) (s : St) (t : Toks) (o : Toks) (rec : Option Obs) (isInit
       else if resClass res == "err" && ok != "0" then
         (s.prop "C02" "concurrent_decodes_agree_with_the_sequential_one" s!"rejected alone, concurrently accepted {ok}/{n} buf={hex buf}").prop "C01" "accepted_record_is_authentic" s!"concurrent buf={hex buf}"
       else s.chk
+    | _ => s
+  -- the same item in front of a very long suffix
+  let s := if !(thas o "big") then s else
+    match (tget o "big").splitOn "/" with
+    | [k, n] => if k == n then s.chk else s.prop "C13" "same_outcome_with_a_huge_suffix" s!"{k}/{n} suffix lengths agree, buf={hex buf}"
     | _ => s
   -- the model's verdict; when the implementation accepted, memoise the one verification
   let (S', s) := match rec with
@@ -1102,7 +1109,20 @@ def finishPending (s : St) (recs : List Obs) (acc : Option Toks) : St :=
         { s with cur := rec1 }
       | "step" =>
         let op := tget t "op"
-        if op == "snap" then
+        if op == "teardown" then
+          -- the same calls from the destructor of a thread-local of an exiting thread must come out as
+          -- in an ordinary context (and, the record being one the library handed out, all succeed)
+          let normal := tget o "normal"
+          let tds := (tget o "td").splitOn ","
+          let s := s.cov s!"teardown/{s.scheme}/{normal}/{tget o "td"}"
+          let s := if normal.any (· == 'p') || tds.any (fun x => x.any (· == 'p')) then
+              s.prop "C03" "no_panic_during_thread_teardown" s!"normal={normal} td={tget o "td"}" else s.chk
+          let s := if tds.all (· == normal) then s.chk else
+              ((s.prop "C03" "same_behaviour_during_thread_teardown" s!"normal={normal} td={tget o "td"}").prop
+                "C11" "backends_interchangeable_in_every_context" s!"scheme={s.scheme} normal={normal} td={tget o "td"}").prop
+                "C05" "verifies_under_own_key" s!"during thread teardown: normal={normal} td={tget o "td"}"
+          s
+        else if op == "snap" then
           match s.cur with
           | some c => { s with slots := (tget t "slot", c) :: s.slots.filter (·.1 != tget t "slot") }
           | none => s
